@@ -16,6 +16,9 @@ World scenarios (registry + weak sets + activations; C02, C04)
                                          (deregister of an agent that is not registered: err Key)
   shuffle <tgt> | sort <tgt> asc|desc    in place
   mkset m a b c …                        AgentSet([...], random=model_m.random)
+  copyset <tgt> sel|copy                 <tgt>.select() without criteria | copy.copy(<tgt>): a new program-made set
+  sadd k a | sdiscard k a                program_set_k.add(a) / .discard(a) outside any activation
+  items <tgt>                            the set read by position: every index and the full slice
   script a <act> ; <act> …               act: rmself | rm b | create m ty n h | unhold b | add k b | discard k b | raise
                                          (add / discard edit program-made set k; `raise`: the callback raises there,
                                          what follows it never runs)
@@ -203,6 +206,32 @@ def worldLine (st : WSt) (ws : List String) : WSt × String :=
     | some m, some l =>
       if m < w.regs.length then let w' := mkSet w m l; ({ st with w := w' }, okW w' s!"set={w.sets.length}") else bad
     | _, _ => bad
+  | ["copyset", t, how] =>
+    -- `set.select()` (no criteria) / `copy.copy(set)`: a new program-made set over the members, same generator
+    match parseTarget t with
+    | some t =>
+      match checkTarget w t with
+      | some e => (st, e)
+      | none =>
+        if how ≠ "sel" && how ≠ "copy" then bad else
+        let w' := copySet w t; ({ st with w := w' }, okW w' s!"set={w.sets.length}")
+    | none => bad
+  | ["sadd", k, a] =>
+    match k.toNat?, a.toNat? with
+    | some k, some a => if k < w.sets.length then let w' := setAdd w k a; ({ st with w := w' }, okW w' "") else bad
+    | _, _ => bad
+  | ["sdiscard", k, a] =>
+    match k.toNat?, a.toNat? with
+    | some k, some a => if k < w.sets.length then let w' := setDiscard w k a; ({ st with w := w' }, okW w' "") else bad
+    | _, _ => bad
+  | ["items", t] =>
+    -- `[s[i] for i in range(len(s))]` and `s[:]`: reading by position shows the members
+    match parseTarget t with
+    | some t =>
+      match checkTarget w t with
+      | some e => (st, e)
+      | none => (st, okW w s!"idx={joinNat "," (itemsOf w t)} slice={joinNat "," (itemsOf w t)}")
+    | none => bad
   | "script" :: a :: rest =>
     match a.toNat?, parseScript rest with
     | some a, some acts => ({ st with scripts := (a, acts) :: st.scripts }, "ok")
@@ -428,6 +457,9 @@ def asetLine (st : Store) (ws : List String) : Store × String :=
       | ["dbl", k] => k.toNat?.map .dbl
       | ["plus", k, d] => do pure (.plus (← k.toNat?) (← d.toInt?))
       | ["nosuch"] => some .nosuch
+      | ["stat", d] => d.toInt?.map .stat
+      | ["cls", d] => d.toInt?.map .cls
+      | ["own", k, d] => do pure (.own (← k.toNat?) (← d.toInt?))
       | _ => none
     match s.toNat?, fP with
     | some s, some f =>
